@@ -185,3 +185,67 @@ def is_iterator_output(I, b0, its, st=None):
             if o.op != "NdAlloc" and (o is b0 or (st is not None and I.res(o, st) is b0) or I.g.vn(o) == I.g.vn(b0)):
                 return True
     return False
+
+
+BOOL_CALLS = {"numpy.logical_and", "numpy.logical_or", "numpy.logical_not", "numpy.logical_xor", "numpy.isfinite",
+              "numpy.isnan", "numpy.isinf", "numpy.isclose", "numpy.less", "numpy.less_equal", "numpy.greater",
+              "numpy.greater_equal", "numpy.equal", "numpy.not_equal", "numpy.isin", "numpy.logical_and.reduce",
+              "numpy.logical_or.reduce", "numpy.bool_", "builtins.bool"}
+
+
+def boolean_valued(n: Node, depth=0):
+    """True: the value is a Python bool / boolean array (so `~x` is the logical negation); False: it is provably an
+    integer or float array although it is built from truth values (`np.where(c, m, 0)`, `m * 1`, `m.astype(int)`:
+    `~x` is then the bitwise complement, -1 / -2, and `a[~x]` selects by position); None: not decided."""
+    if depth > 30:
+        return None
+    op = n.op
+    if op == "Const":
+        return True if isinstance(n.attr, bool) else (False if isinstance(n.attr, (int, float)) else None)
+    if op in ("Compare", "IsInstance"):
+        return True
+    if op == "BoolOp":
+        rs = [boolean_valued(a, depth + 1) for a in n.args]
+        return True if all(r is True for r in rs) else None
+    if op == "UnaryOp" and n.attr in ("Invert", "Not"):
+        return True if n.attr == "Not" else boolean_valued(n.args[0], depth + 1)
+    if op == "BinOp" and n.attr in ("BitAnd", "BitOr", "BitXor"):
+        rs = [boolean_valued(a, depth + 1) for a in n.args]
+        if all(r is True for r in rs):
+            return True
+        return False if any(r is False for r in rs) and all(r is not None for r in rs) else None
+    if op == "BinOp" and n.attr in ("Add", "Sub", "Mult"):
+        rs = [boolean_valued(a, depth + 1) for a in n.args]
+        return False if all(r is not None for r in rs) else None      # arithmetic on truth values gives integers
+    if op == "Phi":
+        a, b = boolean_valued(n.args[1], depth + 1), boolean_valued(n.args[2], depth + 1)
+        return a if a == b else None
+    if op == "Subscript":
+        return boolean_valued(n.args[0], depth + 1)
+    if op == "Scatter":
+        a, b = boolean_valued(n.args[0], depth + 1), boolean_valued(n.args[2], depth + 1)
+        return a if (a is True and b is True) or a is False else None
+    if op == "Call" and n.args and n.args[0].op == "Ext":
+        q = n.args[0].attr
+        if q in BOOL_CALLS:
+            return True
+        if q == "numpy.where" and len(n.args) == 4:
+            a, b = boolean_valued(n.args[2], depth + 1), boolean_valued(n.args[3], depth + 1)
+            if a is True and b is True:
+                return True
+            return False if a is not None and b is not None else None     # bool mixed with 0 / 1: integer result
+        if q in ("numpy.asarray", "numpy.array", "numpy.copy", "numpy.atleast_1d") and len(n.args) == 2 and \
+                not (n.attr[2] if isinstance(n.attr, tuple) and len(n.attr) > 2 else ()):
+            return boolean_valued(n.args[1], depth + 1)
+        return None
+    if op == "MCall" and n.attr[0] == "astype" and len(n.args) >= 2:
+        t = n.args[1]
+        name = str(t.attr) if t.op in ("Ext", "Const") else ""
+        if name in ("builtins.bool", "bool", "numpy.bool_", "?"):
+            return True
+        if "int" in name or "float" in name:
+            return False
+        return None
+    if op == "MCall" and n.attr[0] == "copy" and n.args:
+        return boolean_valued(n.args[0], depth + 1)
+    return None
